@@ -201,17 +201,12 @@ def RulesProtect (c : Ctx) : Prop :=
 theorem modifiable_not_protected {c : Ctx} (hr : RulesProtect c) {n : String}
     (h : c.isModifiable n = .ok true) : n ∉ protected4 := by
   intro hm
-  unfold Ctx.isModifiable Ctx.rule at h
-  simp only [bind, Except.bind] at h
+  unfold Ctx.isModifiable at h
+  simp only [pure, Except.pure, Except.ok.injEq] at h
   split at h
-  · simp at h
-  · rename_i r hrule
-    split at hrule
-    · rename_i r' hr'
-      simp only [pure, Except.pure, Except.ok.injEq] at hrule h
-      subst hrule
-      have := hr n hm r' hr'
-      simp [this] at h
-    · simp [ierr] at hrule
+  · rename_i r hr'
+    have := hr n hm r hr'
+    simp [this] at h
+  · cases h
 
 end Kmip
